@@ -2,8 +2,8 @@
    Statements are about the executable model coq/C14/Model.v (tied to /repo on every run by the
    correspondence harness and by the generated filter table gen/GenSnip.v). *)
 From Coq Require Import ZArith List Bool.
-From Coq Require Import QArith Qcanon.
-From PB Require Import lib.PySlice lib.Arr C14.Model C14.Proofs C14.Reflect C14.Methods C14.Inst C14.Shift C14.Shift2 C14.Grid C14.Rubber C14.Hull C14.Affine
+From Coq Require Import QArith Qcanon Qround.
+From PB Require Import lib.PySlice lib.Arr C14.Model C14.Proofs C14.Reflect C14.Methods C14.Inst C14.Shift C14.Shift2 C14.Grid C14.Rubber C14.Hull C14.Affine C14.Cast C14.CastRange
   C14.SnipTable gen.GenSnip gen.GenRubber.
 Import ListNotations.
 Open Scope Z_scope.
@@ -207,6 +207,42 @@ Print Assumptions C14_mor2d_shift.
 Example C14_rubberband_example :
   rb_select [4; 2; 0; 1; 5; 6] = [0; 1; 5; 6] /\ rb_select [1; 5; 6; 4; 2; 0] = [0; 1; 5; 6].
 Proof. split; reflexivity. Qed.
+
+(* ---- the cast of the float baseline back to the integer dtype of the data (NumPy: truncation towards zero, then
+   wrap modulo 2^w) ----
+   For integer data y and a baseline b <= y the cast keeps "at or below the data" as long as b is not below the
+   dtype minimum (unsigned: b >= 0); tophat and mor baselines never go below the smallest data value, so for them the
+   condition always holds.  snip (extrapolated padding, negative filter weights) and rounding errors violate the
+   hypotheses: the recorded findings are the _refuted witnesses. *)
+Theorem C14_cast_safe : forall (w : Z) (b : Q) (y : Z), (b <= inject_Z y)%Q ->
+  (0 <= w -> (0 <= b)%Q -> y < 2 ^ w -> cast_u w b = qtrunc b /\ 0 <= cast_u w b <= y) /\
+  (1 <= w -> (inject_Z (- 2 ^ (w - 1)) <= b)%Q -> y < 2 ^ (w - 1) ->
+     cast_s w b = qtrunc b /\ - 2 ^ (w - 1) <= cast_s w b <= y).
+Proof. intros w b y Hb. split; intros; [apply cast_u_safe|apply cast_s_safe]; auto. Qed.
+Print Assumptions C14_cast_safe.
+
+Theorem C14_baseline_range : forall (m : Qc) (h : Z) (y : list Qc),
+  Forall (fun v => Qc_leb m v = true) y ->
+  Forall (fun v => Qc_leb m v = true) (tophat Num_Qc h y) /\ Forall (fun v => Qc_leb m v = true) (mor Num_Qc h y).
+Proof. intros m h y Hy. split; [apply tophat_ge_lower_bound|apply mor_ge_lower_bound]; auto. Qed.
+Print Assumptions C14_baseline_range.
+
+(* snip:unsigned-data:wraps-above -- uint8, baseline -1.0 under data 0 becomes 255 *)
+Theorem C14_cast_unsigned_refuted : exists (b : Q) (y : Z), (b <= inject_Z y)%Q /\ 0 <= y < 2 ^ 8 /\ y < cast_u 8 b.
+Proof. exact cast_u_refuted. Qed.
+Print Assumptions C14_cast_unsigned_refuted.
+
+(* snip:signed-data:wraps-above -- int8, baseline -129.0 under data -128 becomes 127 *)
+Theorem C14_cast_signed_refuted : exists (b : Q) (y : Z), (b <= inject_Z y)%Q /\ - 2 ^ 7 <= y < 2 ^ 7 /\ y < cast_s 8 b.
+Proof. exact cast_s_refuted. Qed.
+Print Assumptions C14_cast_signed_refuted.
+
+(* rubberband:signed-int-data:above-by-one-count -- a baseline above an integer data point by a rounding error:
+   floor would keep it at the data, truncation towards zero lifts it one count *)
+Theorem C14_cast_truncation_refuted : exists (b : Q) (y : Z),
+  (inject_Z y < b)%Q /\ (b < inject_Z y + (1 # 1000000))%Q /\ Qfloor b <= y /\ y < qtrunc b.
+Proof. exact trunc_rounding_refuted. Qed.
+Print Assumptions C14_cast_truncation_refuted.
 
 Example C14_orders_nonvacuous :
   (total Z.leb /\ transitive Z.leb /\ antisym Z.leb) /\
